@@ -72,7 +72,7 @@ pub fn gen_op(cx: &Cx, t: SignType, max_pages: u64) -> Op {
 /// ahead of time and twins agree): a slice iterator, or one of several lazy adaptors whose
 /// `size_hint` lower bound is 0 although they yield every page.
 fn iter_kind(pages: &[Page<'static>]) -> usize {
-    (pages.len() + pages.first().map(|p| usize::from(p.id().0)).unwrap_or(0)) % 9
+    (pages.len() + pages.first().map(|p| usize::from(p.id().0)).unwrap_or(0)) % 10
 }
 
 /// Like `apply`, but `probe` is called every time the page list is advanced (a caller's lazy page
@@ -111,6 +111,30 @@ pub fn apply(sign: &Sign, op: &Op) -> Outcome {
                 1 => cls(sign.send_pages(p.iter().filter(|_| true)), style),
                 2 => cls(sign.send_pages(p.iter().collect::<Vec<&Page<'static>>>()), style),
                 3 => cls(sign.send_pages(p.iter().skip_while(|_| false)), style),
+                8 => {
+                    // an iterator that is not fused: after its first `None` it would yield pages again. The
+                    // list ends at the first `None` (that is what a `for` loop sees); asking again is the bug.
+                    #[derive(Clone)]
+                    struct NotFused<'a> {
+                        pages: &'a [Page<'a>],
+                        pos: usize,
+                    }
+                    impl<'a> Iterator for NotFused<'a> {
+                        type Item = &'a Page<'a>;
+                        fn next(&mut self) -> Option<Self::Item> {
+                            let k = self.pos;
+                            self.pos += 1;
+                            if k < self.pages.len() {
+                                Some(&self.pages[k])
+                            } else if k == self.pages.len() {
+                                None
+                            } else {
+                                self.pages.first()
+                            }
+                        }
+                    }
+                    cls(sign.send_pages(NotFused { pages: &p[..], pos: 0 }), style)
+                }
                 6 => {
                     // groups of pages flattened: the iterator's size hint is (0, None) although it is finite
                     let groups: Vec<&[Page<'static>]> = if p.len() >= 2 { vec![&p[..1], &p[1..]] } else { vec![&p[..]] };
